@@ -91,6 +91,7 @@ PROPS = {
                    SP + "StatisticalContinuumSampler._set_nb_units_information", SP + "StatisticalContinuumSampler._set_duration_information",
                    SP + "StatisticalContinuumSampler._set_categories_information", SP + "StatisticalContinuumSampler._set_gap_information",
                    SP + "StatisticalContinuumSampler.init_sampling#given", SP + "StatisticalContinuumSampler.init_sampling#default",
+                   SP + "StatisticalContinuumSampler.init_sampling_custom",
                    SP + "AbstractContinuumSampler.init_sampling#given", SP + "AbstractContinuumSampler.init_sampling#default"]
                   + [CT + "Continuum." + m for m in ("copy_flush", "add", "add_annotator", "__bool__")] + [CT + "Unit.__lt__"],
         lawtags=True,
@@ -102,8 +103,9 @@ PROPS = {
                            "_set_gap_information (np.mean / np.std of a list that starts with 0 and otherwise holds only distances between two "
                            "units adjacent in iteration order of one annotator, or positive first starts; that EVERY such gap is in the list "
                            "is not stated), and the statistical sampler's init_sampling (after it, every law parameter is the one the four setters measure "
-                           "on the reference; ground-truth annotators as given / all); init_sampling_custom "
-                           "is not under a deductive contract (law tags only): measured parameters "
+                           "on the reference; ground-truth annotators as given / all) and init_sampling_custom (the laws get exactly the supplied "
+                           "parameters, weights None iff not supplied, ValueError iff their number differs from the categories', the supplied "
+                           "annotators are the ground truth). Bounded: measured parameters "
                            "against numpy on random references, 40 seeded draws per case: validity clauses again, plus a loose 6-standard-error "
                            "check of the mean duration")],
         design_ref="DESIGN.md section 4 C15",
